@@ -214,6 +214,20 @@ def c05 (env : Env) (ctx0 : Ctx) (o : RunObs) (ref : RunObs) : Bool :=
           | .err (.user u) => (tr.getLast?.bind (scriptFatal env)) == some u
           | _ => false)
 
+/-- **C11** for a batch node inside a flow: once a callback of a batch node's visit has cancelled the context,
+    no event of any other visit follows — the batch still finishes (post once), then the flow stops: the run
+    terminates instead of starting further nodes or looping. -/
+def c11Flow (env : Env) (ctx0 : Ctx) (o : RunObs) : Bool :=
+  let tr := noWaits o.trace
+  match ctx0 with
+  | .done _ => true
+  | .live =>
+    match tr.findIdx? (scriptCancels env) with
+    | none => true
+    | some j =>
+      let c := tr.getD j default
+      !isBatchEv c || (tr.drop (j + 1)).all (fun e => evKey e == evKey c)
+
 /-- **C18** -/
 def c18 (o : RunObs) : Bool :=
   match o.out with
@@ -262,6 +276,27 @@ def c03 (env : Env) (root : NodeId) (vis : NodeId → Nat) (fuel : Nat) (o : Run
       && (match r with
           | some a => o.out == .ok (norm a)
           | none => (match o.out with | .err _ => true | _ => false))
+    else true
+  | _ => true
+
+/-- **C18**, last clause, on a run of a *flat* root flow without cancellation: whenever a visit ends with the
+    default action (its post returned `""` or `"default"`) and the table connects `(node, "default")` to a node,
+    that node is the next one visited — "a connection on the default action is always followed". -/
+def c18Followed (env : Env) (root : NodeId) (o : RunObs) : Bool :=
+  match env.arena root with
+  | .flow (some s) ops =>
+    if isFlatFlow env ops s then
+      let vs := visitSeq o.trace
+      (List.range vs.length).all fun i =>
+        let (n, v) := vs.getD i (0, 0)
+        match visitAction env n v with
+        | some a =>
+          if a == defaultAction then
+            (match next ops n a with
+             | some (some d) => decide (i + 1 < vs.length) && (vs.getD (i + 1) (0, 0)).1 == d
+             | _ => true)
+          else true
+        | none => true
     else true
   | _ => true
 
